@@ -109,6 +109,10 @@ def gen_parity_program(rnd):
             stmts.append(apm.string(".ascii", [("s", rnd.choice(["a", "ab", "abc", ""]))]))
         elif r < 0.76:
             stmts.append(apm.blk(".align", apm.num(rnd.choice([2, 4, 8, 3]))))
+        elif r < 0.84:
+            # word-sized content wherever it happens to fall: on an odd address the program has to be refused, not laid out somehow
+            stmts.append(rnd.choice([apm.wordlist(apm.num(rnd.randrange(0x10000)), apm.num(rnd.randrange(0x10000))), apm.data(".word", apm.num(rnd.randrange(0x10000))),
+                                     apm.data(".dword", apm.num(rnd.randrange(1 << 20))), apm.wordlist(apm.num(7))]))
         else:
             labels.append(f"par{i}")
             stmts.append(apm.label(labels[-1]))
@@ -131,7 +135,9 @@ def gen_parity_program(rnd):
     prog = apm.Program([apm.SrcFile("f0.mac", stmts)], aux=aux)
     try:
         apm.Ref(prog).run()
-    except (apm.RefError, apm.Unmodelled):
+    except apm.RefError:
+        return prog          # kept: the assembler has to refuse it as well
+    except apm.Unmodelled:
         return None
     return prog
 
